@@ -47,4 +47,11 @@ CHECKS['C01'] = {
     'design_ref': 'DESIGN.md §4 C01',
 }
 
+CHECKS['C02'] = {
+    'technique': 'static analysis: per-variant summaries of the typed and serialised resolvers compared as sibling tables, provenance rules on private response channels and resolve closures, compile-fail witnesses (thorough)',
+    'text': 'Static rule instances over the MIR of crux_core: the Never/Once/Many tables of Resolve::resolve and ResolveSerialized::resolve (Once writes Never before calling the taken closure, Many never consumes, Never calls nothing) agree with each other and with the specification; arity and payload are preserved across Resolve::deserializing; each request owns a private channel or shared state whose sending half lives only in its resolve closure; resolved values are delivered unchanged; stream closures report a closed consumer. The thorough tier adds rustc compile-fail witnesses (wrong output type, private resolve field, no Clone). Cross-delivery freedom under every interleaving follows from ownership and is not decided separately.',
+    'design_ref': 'DESIGN.md §4 C02',
+}
+WITNESS_PROPS = ['C01', 'C02', 'C18', 'C19']
+
 PENDING_REASON = 'check not yet armed in this framework (static rules designed in DESIGN.md §4; implementation in progress)'
